@@ -1,53 +1,11 @@
-// Command harness is tie H of /verif: it runs PDOK/texel (the current working tree of /repo,
-// through `replace github.com/pdok/texel => /repo`, built with -tags verif) on generated inputs,
-// applies the property oracle to what the implementation returns, and writes Coq case files that
-// contain the inputs together with the observed outputs for the correspondence check.
+// Command harness is tie H of /verif for the snapping core (C01-C09, C17, C18): it runs PDOK/texel
+// (the current working tree of /repo, through `replace github.com/pdok/texel => /repo`, built with
+// -tags verif) on generated inputs, applies the property oracle to what the implementation returns,
+// and writes Coq case files containing the inputs together with the observed outputs.
 package main
 
-import (
-	"flag"
-	"fmt"
-	"math/rand"
-	"os"
-)
+import hc "verif/hcommon"
 
-type propFunc func(c *Ctx) error
+var props = map[string]hc.PropFunc{}
 
-var props = map[string]propFunc{}
-
-func main() {
-	if len(os.Args) < 2 {
-		fmt.Fprintln(os.Stderr, "usage: harness <Cxx> -tier quick|thorough -seed N -out dir")
-		os.Exit(2)
-	}
-	id := os.Args[1]
-	fs := flag.NewFlagSet("harness", flag.ExitOnError)
-	tier := fs.String("tier", "quick", "")
-	seed := fs.Int64("seed", 1, "")
-	out := fs.String("out", "", "")
-	verif := fs.String("verif", "/verif", "")
-	repo := fs.String("repo", "/repo", "")
-	search := fs.Bool("search", false, "widen the oracle-only search (a proof obligation or correspondence is broken)")
-	replay := fs.String("replay", "", "")
-	_ = fs.Parse(os.Args[2:])
-	f, ok := props[id]
-	if !ok {
-		fmt.Fprintf(os.Stderr, "harness: no such property %s\n", id)
-		os.Exit(2)
-	}
-	c := NewCtx(id)
-	c.Tier, c.Seed, c.Out, c.Verif, c.Repo, c.Search, c.Replay = *tier, *seed, *out, *verif, *repo, *search, *replay
-	c.Rng = rand.New(rand.NewSource(*seed))
-	if err := os.MkdirAll(c.Out, 0o755); err != nil {
-		fmt.Fprintln(os.Stderr, err)
-		os.Exit(2)
-	}
-	if err := f(c); err != nil {
-		fmt.Fprintln(os.Stderr, "harness:", err)
-		os.Exit(3)
-	}
-	if err := c.Finish(); err != nil {
-		fmt.Fprintln(os.Stderr, "harness:", err)
-		os.Exit(3)
-	}
-}
+func main() { hc.Main(props) }
